@@ -218,7 +218,8 @@ fn main() {
                 }
             };
             quiet_panics();
-            let r = exec::execute(&sc, &gs, args.iter().any(|a| a == "--verbose"));
+            let verbose = args.iter().any(|a| a == "--verbose");
+            let r = std::thread::Builder::new().stack_size(exec::STACK_BYTES).spawn(move || exec::execute(&sc, &gs, verbose)).expect("spawn").join().expect("executor thread");
             print_report(&r);
             0
         }
@@ -240,7 +241,8 @@ fn main() {
             };
             quiet_panics();
             let sc = Scenario { seed: 0, heap_pre: (0, 0), threads: 1, ops: vec![Op::New { slot: 0, text, reuse: false }, op] };
-            let r = exec::execute(&sc, &gs, args.iter().any(|a| a == "--verbose"));
+            let verbose = args.iter().any(|a| a == "--verbose");
+            let r = std::thread::Builder::new().stack_size(exec::STACK_BYTES).spawn(move || exec::execute(&sc, &gs, verbose)).expect("spawn").join().expect("executor thread");
             print_report(&r);
             0
         }
